@@ -44,6 +44,33 @@ def check(ctx, cfg):
     r6(ctx, cfg)
     r7(ctx, cfg)
     r8(ctx, cfg)
+    r9(ctx, cfg)
+
+
+def r9(ctx, cfg):
+    """"a query issued through App observes exactly the committed state": the accessors that hand the application's parts to user
+    code hand *these* parts - `read_module(f)` is `f(&self.router, &self.api, &self.storage)` and `init_modules(f)` the same
+    mutably; neither a copy nor a fresh store"""
+    F, P = cfg.facts, cfg.prov
+    R = "C10.R9"
+    for name, pname in (("read_module", "query_fn"), ("init_modules", "init_fn")):
+        key = "app::App::" + name
+        f = ctx.need_fn(R, key)
+        if f is None:
+            continue
+        cs = [(b, t) for b, t in f.calls() if t["callee"]["name"] in ("call_once", "call", "call_mut") and t["callee"].get("trait", "").startswith("std::ops::Fn")]
+        ok = len(cs) == 1
+        if ok:
+            a = P.call_args(f, cs[0][1], cs[0][0])
+            tup = peel(a[1])
+            def own(o, fld):
+                o = peel(o)
+                return o[0] == "field" and o[2] == fld and is_param(o[1], "self")
+            ok = is_param(a[0], pname) and tup[0] == "agg" and len(tup[2]) == 3 and own(tup[2][0][1], "router") and own(tup[2][1][1], "api") and own(tup[2][2][1], "storage")
+            rv = peel(P.ret(f))
+            ok = ok and rv[0] == "call" and rv[1].startswith("std::ops::Fn")
+        ctx.ob(R, key, "hands-out-the-application's-own-parts", ok, "%s does not answer %s(&self.router, &self.api, &self.storage)" % (name, pname), fn=f,
+               sample="%s(router, api, storage)" % pname)
 
 
 def r8(ctx, cfg):
